@@ -917,12 +917,33 @@ func ruleUnionMemberSelection(c *an.Ctx, o *an.O) {
 			switch an.FieldName(fa.X.Type(), fa.Field) {
 			case "Fragments":
 				o.Site(st)
-				gs := strings.Join(an.GuardStrings(st.Block()), " ")
-				if strings.Contains(gs, ".On == ") || strings.Contains(gs, "!(") && strings.Contains(gs, ".On != ") || strings.Contains(gs, ".On != ") {
+				// the list is built by appends (directly into the field, or into a local first), each
+				// behind the test fragment.On == member type
+				chain := appendChain(st.Val)
+				if ld, ok := st.Val.(*ssa.UnOp); ok && len(chain) == 0 {
+					chain = appendChain(an.ThroughCell(ld))
+				}
+				all := len(chain) > 0
+				for _, ap := range chain {
+					guarded := false
+					for _, g := range an.GuardsOf(ap.Block()) {
+						bo, ok := g.Cond.(*ssa.BinOp)
+						if !ok || (bo.Op != token.EQL && bo.Op != token.NEQ) {
+							continue
+						}
+						if (an.IsFieldAccess(bo.X, "Fragment", "On") || an.IsFieldAccess(bo.Y, "Fragment", "On")) && (bo.Op == token.EQL) == g.Polarity {
+							guarded = true
+						}
+					}
+					if !guarded {
+						all = false
+					}
+				}
+				if all {
 					okFrag = true
 				}
 			case "Selections":
-				okSel = strings.HasSuffix(an.Expr(st.Val), ".Selections")
+				okSel = an.IsFieldAccess(st.Val, "SelectionSet", "Selections")
 			}
 		}
 	}
